@@ -137,4 +137,26 @@ theorem protected_split (l : Lk) (hl : l = .alloc ∨ l = .file) (pre post : Lis
       obtain ⟨h, hr, hw⟩ := ih h1 hrun hprot.2
       exact ⟨h, by simp only [runHeld, hs]; exact hr, hw⟩
 
+/-- which locks prefer writers: `iwkv->rwl` and `db->rwl` are created with
+    `PTHREAD_RWLOCK_PREFER_WRITER_NONRECURSIVE_NP`; allocator and file locks have default attributes -/
+def prefLk : Lk → Bool
+  | .store => true
+  | .db _ => true
+  | _ => false
+
+/-- the system of `n` client threads (and background threads) where thread `i` makes the calls `sess i`,
+    each with a lock-event sequence of its call automaton -/
+def initSys (n : Nat) (sess : Nat → List (Kind × List Ev)) : Sys Lk :=
+  { n := n, thr := fun i => { prog := sessionActs (sess i), held := [], sleeping := false, units := 0 } }
+
+theorem countOnly_wkActs (k : Kind) : CountOnly (wkActs k) := by
+  intro a ha
+  cases k <;> simp [wkActs] at ha <;> (try rcases ha with h | h) <;> simp_all
+
+theorem accepts_ordered {k : Kind} {tr : List Ev} (h : accepts k tr = true) : runHeld [] tr = some [] := by
+  simp only [accepts, Bool.and_eq_true] at h
+  have := h.1.1.1
+  simpa [ordered] using this
+
+
 end IwModel.Locks
